@@ -60,6 +60,8 @@ func TestMain(m *testing.M) {
 // server closes meanwhile, then the client's path recovers) | client-close
 // (in state handshake: after 10 of the 24 preface octets) | server-close (TLS close) | server-reset (TCP RST) |
 // client-write-fail (writes toward the client start failing) |
+// client-read-deadline (the read deadline of the client connection passes: every read by
+// the relay now fails at once with a timeout error; 50 ms later the client closes) |
 // client-ack-write-fail (the client's receive path stalls and then dies exactly
 // while the relay returns window credit for DATA the client is uploading, and
 // the server has a frame for the client at that moment) |
@@ -80,8 +82,8 @@ var collect = os.Getenv("C10_COLLECT") != ""
 
 var (
 	states   = []string{"dialing", "handshake", "idle-no-alpn", "queued-s2c", "idle", "mid", "blocked-c2s", "blocked-s2c", "backedup-c2s", "backedup-s2c", "backedup-s2c-upload", "early-credit", "burst"}
-	events   = []string{"bad-preface", "closing-first", "server-close-slow-client", "server-close-slow-client-credit", "server-close-slow-client-credit-close", "client-close", "server-close", "server-reset", "client-write-fail", "client-ack-write-fail", "client-proto-error", "server-proto-error", "closing"}
-	variants = []string{"continuation-without-headers", "bad-padding", "settings-bad-length", "max-frame-size-zero"}
+	events   = []string{"bad-preface", "closing-first", "server-close-slow-client", "server-close-slow-client-credit", "server-close-slow-client-credit-close", "client-close", "server-close", "server-reset", "client-write-fail", "client-read-deadline", "client-ack-write-fail", "client-proto-error", "server-proto-error", "closing"}
+	variants = []string{"continuation-without-headers", "bad-padding", "settings-bad-length", "max-frame-size-zero", "settings-invalid-value"}
 
 	h2RE = regexp.MustCompile(`github\.com/google/martian/v3/h2\.`)
 )
@@ -95,7 +97,7 @@ var (
 func isolated(c Case) bool { return c.Variant == "max-frame-size-zero" }
 
 func valid(c Case) bool {
-	if c.Variant == "max-frame-size-zero" && c.State != "mid" {
+	if (c.Variant == "max-frame-size-zero" || c.Variant == "settings-invalid-value") && c.State != "mid" {
 		return false // needs an open stream on which the other side sends DATA
 	}
 	if c.Event == "server-close-slow-client" && c.State != "mid" {
@@ -126,8 +128,8 @@ func valid(c Case) bool {
 	if c.State == "backedup-s2c" && c.Event == "server-proto-error" {
 		return false
 	}
-	if c.State == "backedup-c2s" && c.Event == "client-proto-error" {
-		return false
+	if c.State == "backedup-c2s" && (c.Event == "client-proto-error" || c.Event == "client-read-deadline") {
+		return false // (the parked reader does not read: same situation as the open backedup-c2s+client-close finding)
 	}
 	return true
 }
@@ -141,7 +143,7 @@ func normalise(c Case) Case {
 	if c.Event == "client-write-fail" {
 		c.Traffic = true // a failing write is only noticed when something is written
 	}
-	if c.Variant == "max-frame-size-zero" {
+	if c.Variant == "max-frame-size-zero" || c.Variant == "settings-invalid-value" {
 		c.Traffic = true // the value only matters once the other side sends DATA toward its author
 	}
 	if c.State == "handshake" || c.State == "dialing" {
@@ -309,6 +311,10 @@ func malformed(ep *h2kit.Endpoint, variant string) {
 		ep.WriteRaw(0x0, 0x8, 1, []byte{200, 'a'})
 	case "settings-bad-length":
 		ep.WriteRaw(0x4, 0, 0, []byte{0, 4, 0, 0, 1})
+	case "settings-invalid-value":
+		// well-formed SETTINGS frame, SETTINGS_ENABLE_PUSH = 7 (only 0 and 1 are allowed: a
+		// connection error PROTOCOL_ERROR); the framer lets it through
+		ep.WriteRaw(0x4, 0, 0, []byte{0, 2, 0, 0, 0, 7})
 	case "max-frame-size-zero":
 		// well-formed SETTINGS frame, invalid value (RFC 7540 6.5.2: values below 16 384
 		// are a connection error PROTOCOL_ERROR)
@@ -436,6 +442,10 @@ func runOnce(c Case, bound time.Duration) (v kit.Verdict, slow bool) {
 		s.ServerTCP().Close()
 	case "client-write-fail":
 		s.Duplex.FailRelayWrites()
+	case "client-read-deadline":
+		s.Duplex.ExpireRelayReads()
+		time.Sleep(50 * time.Millisecond)
+		s.Duplex.HarnessSide().Close()
 	case "client-ack-write-fail":
 		// Writes toward the client stall. The client uploads one DATA frame: the
 		// relay's client-to-server side blocks in the write of the first
@@ -453,16 +463,30 @@ func runOnce(c Case, bound time.Duration) (v kit.Verdict, slow bool) {
 		// part of the oracle (read too late, the case is merely a plain write failure)
 		time.Sleep(100 * time.Millisecond)
 		s.Duplex.FailRelayWrites()
-	case "client-proto-error":
-		malformed(cl, c.Variant)
-	case "server-proto-error":
-		malformed(sv, c.Variant)
+	case "client-proto-error", "server-proto-error":
+		bad, other := cl, sv
+		if event == "server-proto-error" {
+			bad, other = sv, cl
+		}
+		if c.Variant == "settings-invalid-value" {
+			// the other side is in the middle of a body: a dense run of small DATA frames
+			// before and after the offending frame
+			for i := 0; i < 100; i++ {
+				other.WriteData(1, []byte{byte(i)}, -1, false)
+			}
+			malformed(bad, c.Variant)
+			for i := 0; i < 100; i++ {
+				other.WriteData(1, []byte{byte(i)}, -1, false)
+			}
+		} else {
+			malformed(bad, c.Variant)
+		}
 	case "closing":
 		s.CloseClosing()
 	}
 	if c.Traffic && !early {
 		switch c.Event {
-		case "client-close", "client-write-fail", "client-ack-write-fail", "client-proto-error":
+		case "client-close", "client-write-fail", "client-read-deadline", "client-ack-write-fail", "client-proto-error":
 			go keepSending(sv, c)
 		case "server-close", "server-reset", "server-proto-error", "server-close-slow-client", "server-close-slow-client-credit":
 			go keepSending(cl, c)
@@ -648,7 +672,7 @@ func matrixCases(thorough bool, yield func(Case) bool) {
 			if ev == "client-proto-error" || ev == "server-proto-error" {
 				vs = variants
 				if !thorough {
-					vs = []string{variants[0], "max-frame-size-zero"} // (the latter only exists in state mid)
+					vs = []string{variants[0], "max-frame-size-zero", "settings-invalid-value"} // (the latter two only exist in state mid)
 				}
 			}
 			for _, va := range vs {
@@ -657,7 +681,7 @@ func matrixCases(thorough bool, yield func(Case) bool) {
 						if !thorough && (traffic || procs != 0) {
 							continue
 						}
-						if thorough && (ev == "client-write-fail" || va == "max-frame-size-zero") && !traffic {
+						if thorough && (ev == "client-write-fail" || va == "max-frame-size-zero" || va == "settings-invalid-value") && !traffic {
 							continue // normalise would make it the same case as traffic=true
 						}
 						c := normalise(Case{State: st, Event: ev, Variant: va, Traffic: traffic, Procs: procs})
